@@ -187,8 +187,14 @@ func c09Run(p c09Params) func() {
 		}
 		if p.spont {
 			mc.GoEnv("spont", func() {
-				// mid-interval, and 61 ms into the following heartbeat exchange (pending if unanswered)
-				for i, at := range []mc.Duration{H/2 + 11*ms, H + 61*ms, 2*H + 161*ms} {
+				// mid-interval, and 61 ms into the following heartbeat exchange (pending if unanswered).
+				// The residues modulo the resend interval (11, 61, 73) are pairwise different and not 0:
+				// after a reconnect the heartbeat phase is the disconnect instant plus a multiple of the
+				// resend interval, so no injected frame can coincide with a heartbeat tick - with
+				// 2H+161 the third one did (disconnect at H+61, one lost connect request, tick at
+				// 2H+161), a tie whose two orders are both correct and which the reference machine
+				// resolved one way (false alarm of the thorough tier, see DESIGN 11).
+				for i, at := range []mc.Duration{H/2 + 11*ms, H + 61*ms, 2*H + 173*ms} {
 					if i >= 2 && p.horizonHB < 3 {
 						break
 					}
@@ -529,11 +535,13 @@ func c09Oracle(p c09Params) func(tr *mc.Trace) []h.Violation {
 		desc := strings.Join(story, "; ")
 		// a Send pending across the start of a connection delays the client's entry into that
 		// connection (known finding): its heartbeat schedule then starts late
-		sendAcross := func(t mc.Duration) bool {
-			ep := modeAt(t)
-			if ep == nil || ep.mode != mConnected {
-				return false
-			}
+		// The connection server takes the sender's lock when it enters a new connection, so a Send
+		// that is pending at that moment stalls it until the Send gives up: from then on the client's
+		// heartbeat schedule lags behind the reference machine's, whose account of everything after
+		// that instant (heartbeats, their failures, reconnects, termination) is void. Mismatches after
+		// such an instant are consequences of the known finding and carry its suffix.
+		var acrossAt = mc.Duration(-1)
+		{
 			var callT, retT = map[int]mc.Duration{}, map[int]mc.Duration{}
 			for _, e := range tr.Log {
 				switch x := e.V.(type) {
@@ -547,12 +555,23 @@ func c09Oracle(p c09Params) func(tr *mc.Trace) []h.Violation {
 					}
 				}
 			}
-			for id, tc := range callT {
-				if tr2, ok := retT[id]; tc < ep.from && (!ok || tr2 > ep.from) {
-					return true
+			for _, ep := range epochs {
+				if ep.mode != mConnected || ep.from == 0 || acrossAt >= 0 {
+					continue
+				}
+				for id, tc := range callT {
+					if tr2, ok := retT[id]; tc < ep.from && (!ok || tr2 > ep.from) {
+						acrossAt = ep.from
+					}
 				}
 			}
-			return false
+		}
+		sendAcross := func(t mc.Duration) bool { return acrossAt >= 0 && t >= acrossAt }
+		kf := func(cls string, t mc.Duration) string {
+			if sendAcross(t) {
+				return cls + ":send-pending-across-reconnect"
+			}
+			return cls
 		}
 		firstTxSeen := false
 		for _, e := range tr.Log {
@@ -603,9 +622,7 @@ func c09Oracle(p c09Params) func(tr *mc.Trace) []h.Violation {
 						cls = "stale-channel"
 					}
 				}
-				if kind == "ConnStateReq" && sendAcross(e.T) {
-					cls += ":send-pending-across-reconnect"
-				}
+				cls = kf(cls, e.T)
 				bad(cls, "%s left the socket at %v; the reference machine expects no such frame then (%s)", fakesock.Describe(s.Svc), e.T, desc)
 			}
 		}
@@ -615,9 +632,7 @@ func c09Oracle(p c09Params) func(tr *mc.Trace) []h.Violation {
 				continue
 			}
 			cls := "missing-" + x.kind
-			if x.kind == "ConnStateReq" && sendAcross(x.t) {
-				cls += ":send-pending-across-reconnect"
-			}
+			cls = kf(cls, x.t)
 			bad(cls, "no %s (channel %d) left the socket at %v: %s (%s)", x.kind, x.ch, x.t, x.why, desc)
 			break
 		}
@@ -654,10 +669,10 @@ func c09Oracle(p c09Params) func(tr *mc.Trace) []h.Violation {
 		}
 		if term != nil && term.from < closeAt {
 			if inboundClosedAt != term.from {
-				bad("inbound-not-closed-on-termination", "the tunnel terminated at %v (%s) but Inbound was closed at %v (-1 = never)", term.from, term.startCause, inboundClosedAt)
+				bad(kf("inbound-not-closed-on-termination", term.from), "the tunnel terminated at %v (%s) but Inbound was closed at %v (-1 = never)", term.from, term.startCause, inboundClosedAt)
 			}
 		} else if inboundClosedAt >= 0 && inboundClosedAt < closeAt {
-			bad("inbound-closed-early", "Inbound was closed at %v although the tunnel had no reason to terminate (%s)", inboundClosedAt, desc)
+			bad(kf("inbound-closed-early", inboundClosedAt), "Inbound was closed at %v although the tunnel had no reason to terminate (%s)", inboundClosedAt, desc)
 		}
 		for _, e := range tr.Log {
 			switch x := e.V.(type) {
@@ -668,19 +683,19 @@ func c09Oracle(p c09Params) func(tr *mc.Trace) []h.Violation {
 				tc := calls[x.ID]
 				epc, epr := modeAt(tc), modeAt(e.T)
 				if term != nil && tc > term.from && x.Err == "" && !p.tcp {
-					bad("send-succeeds-after-termination", "Send %d called at %v, after the tunnel terminated at %v (%s), reported success", x.ID, tc, term.from, term.startCause)
+					bad(kf("send-succeeds-after-termination", term.from), "Send %d called at %v, after the tunnel terminated at %v (%s), reported success", x.ID, tc, term.from, term.startCause)
 				}
 				if term != nil && tc > term.from && x.Err == "" && p.tcp {
 					bad("tcp-send-succeeds-after-termination", "TCP: Send %d called at %v, after the tunnel terminated at %v (%s), reported success", x.ID, tc, term.from, term.startCause)
 				}
 				if term != nil && tc <= term.from && e.T >= term.from && x.Err == "" && e.T > tc {
-					bad("pending-send-succeeds-at-termination", "Send %d pending when the tunnel terminated at %v reported success", x.ID, term.from)
+					bad(kf("pending-send-succeeds-at-termination", term.from), "Send %d pending when the tunnel terminated at %v reported success", x.ID, term.from)
 				}
 				if e.T-tc > T {
 					bad("send-late", "Send %d called %v returned %v", x.ID, tc, e.T)
 				}
 				if epc == epr && epc.mode == mConnected && x.Err != "" && tc != epc.from && e.T < closeAt {
-					bad("send-fails-while-connected", "Send %d (called %v, returned %v with %q) failed although the tunnel was connected on channel %d throughout (%s)", x.ID, tc, e.T, x.Err, epc.ch, desc)
+					bad(kf("send-fails-while-connected", tc), "Send %d (called %v, returned %v with %q) failed although the tunnel was connected on channel %d throughout (%s)", x.ID, tc, e.T, x.Err, epc.ch, desc)
 				}
 			case fakesock.Sent:
 				if x.Err != nil {
